@@ -290,11 +290,9 @@ func (w *world) use(t *thread, what string) {
 		if len(w.holders) == 0 {
 			w.fail("missing-clean/idle-to-busy", "%s by %s starts an action on an idle->busy transition without a preceding cleaner call", what, t.name)
 		}
-	case 1:
-		if len(w.holders) != 0 {
-			// Somebody became a user during our cleaning; already reported as overlap.
-		}
 	}
+	// (t.pre == 1: this thread cleaned successfully; anybody who became a
+	// user during that cleaning has already been reported as an overlap.)
 	w.holders[t.name] = true
 }
 
